@@ -12,9 +12,12 @@
 
   `mon block … => <implementation answer>`: the three clauses of the property and `CollapseSound`, evaluated on the
   implementation's own layouts.
+
+  `c10tree …` / `mon c10tree … => ok`: the tree-level stream, see Drv/C10Tree.lean.
 -/
 import TaffyVerif.Drv.StyleParse
 import TaffyVerif.Model.Block
+import TaffyVerif.Drv.C10Tree
 
 namespace DrvC10
 open Proto Drv BlockModel
@@ -235,6 +238,9 @@ def step (_ : Unit) (ws : List String) : Unit × String :=
     match pRequest req, pAnswer ans with
     | some (r, []), some ((o, ls), _) => ((), monitor r o ls)
     | _, _ => ((), "bad-op")
+  -- tree-level stream (Drv/C10Tree.lean): whole trees against Spec/MarginCollapse.lean
+  | "c10tree" :: rest => ((), DrvC10Tree.tie rest)
+  | "mon" :: "c10tree" :: rest => ((), DrvC10Tree.monitor (rest.takeWhile (· ≠ "=>")))
   | _ => ((), "bad-op")
 
 def handler : Handler := { σ := Unit, init := (), step := step }
